@@ -397,7 +397,7 @@ pub fn run(run: &mut Run) {
         "for SAN texts that are not canonical, refusal of a uniquely denoting text is not judged (soundness only)".into(),
     ];
     let thorough = run.thorough();
-    run.notes.push("level 2 (all 7,781 well-formed Move values, all 20,481 UCI strings, SAN texts, each through make, make_raw and MoveChain::push) on REACH(1 / thorough 2) and P30; level 1 (values with occupied source + one empty probe, abbreviated pawn captures) on REACH(2) [thorough: M3, EP, PROMO, CASTLE, REACH(3)]; level 0 (values derived from every pseudo-legal move, null, 0000) on M3, EP, CASTLE, PROMO, COUNTERS and the deepest REACH tier".into());
+    run.notes.push("level 2 (all 7,781 well-formed Move values, all 20,481 UCI strings, SAN texts, each through make, make_raw and MoveChain::push) on REACH(1 / thorough 2) and P30; level 1 (values with occupied source + one empty probe, abbreviated pawn captures) on REACH(2) [thorough: M3, EP, PROMO, CASTLE, REACH(3)]; level 0 (values derived from every pseudo-legal move, null, 0000) on EP, CASTLE, PROMO, COUNTERS and the deepest REACH tier (M3 in thorough at level 1)".into());
     let l2 = Sel { reach: Some(if thorough { 2 } else { 1 }), ..Default::default() };
     run_universes(run, &l2, DISAGREE, &check_pos_full);
     {
@@ -413,7 +413,7 @@ pub fn run(run: &mut Run) {
     let l0 = if thorough {
         Sel { ep: Some(true), castle: Some(true), promo: Some(true), reach: Some(4), counters: true, ..Default::default() }
     } else {
-        Sel { m3: true, ep: Some(false), castle: Some(false), promo: Some(false), reach: Some(3), counters: true, ..Default::default() }
+        Sel { ep: Some(false), castle: Some(false), promo: Some(false), reach: Some(3), counters: true, ..Default::default() }
     };
     run_universes(run, &l0, DISAGREE, &check_pos);
     p30_strings(run, if thorough { 4 } else { 3 });
